@@ -31,7 +31,14 @@ pub fn name(rng: &mut Rng, patch: bool) -> Vec<u8> {
     // every exception of the patch rule also occurs on patch-shaped names (the specification
     // classifies; `patch` only chooses the shape)
     if rng.chance(1, 8) {
-        n.extend_from_slice(rng.pick_str(&[".orig", ".rej", "~", ".tar.gz", ".tar.xz"]).as_bytes());
+        n.extend_from_slice(rng.pick_str(&[".orig", ".rej", "~", ".tar.gz", ".tar.xz", ".tar.xz.sig", ".tar.gz.asc", ".tar", ".patch", ".tar.", ".orig.tar.gz"]).as_bytes());
+    }
+    // scale: a name that makes the line longer than a line buffer (1 KiB) or a 16-bit offset
+    if rng.chance(1, 250) {
+        let k = threshold(rng, 70000);
+        let mut long: Vec<u8> = vec![b'L'; k];
+        if rng.chance(1, 2) { long[k / 2] = 0xe9; }
+        n.extend_from_slice(&long);
     }
     // no trailing '/', no "//", no "." / ".." components
     n
@@ -42,6 +49,8 @@ fn hash(rng: &mut Rng) -> String {
 }
 fn size(rng: &mut Rng) -> String {
     match rng.below(5) {
+        // digits only, at and beyond the limit of u64 (beyond = an unparsable size)
+        4 if rng.chance(1, 3) => { let l = limit_number(rng); if l.bytes().all(|c| c.is_ascii_digit()) { l } else { "18446744073709551616".into() } }
         0 => "0".into(),
         1 => "18446744073709551615".into(),
         2 => format!("{}", rng.next()),
@@ -63,8 +72,9 @@ pub fn canonical(rng: &mut Rng) -> Vec<u8> {
     }
     t.extend_from_slice(b"\n\n");
     let mut used: Vec<Vec<u8>> = vec![];
+    let many = rng.chance(1, 40);
     for patch in [false, true] {
-        for _ in 0..rng.range(0, 3) {
+        for _ in 0..if many { *rng.pick(&[17usize, 33, 70]) } else { rng.range(0, 3) } {
             let n = name(rng, patch);
             if used.contains(&n) { continue; }
             used.push(n.clone());
@@ -87,11 +97,20 @@ pub fn canonical(rng: &mut Rng) -> Vec<u8> {
 
 /// arbitrary interleavings of recognised and ignorable lines (C11)
 pub fn messy(rng: &mut Rng) -> Vec<u8> {
-    let names: Vec<Vec<u8>> = (0..rng.range(1, 4)).map(|i| name(rng, i % 2 == 1)).collect();
+    // scale: more files than a "recent entries" window, lines of one file far apart
+    let many = rng.chance(1, 40);
+    let nnames = if many { *rng.pick(&[17usize, 18, 33, 65, 130]) } else { rng.range(1, 4) };
+    let names: Vec<Vec<u8>> = (0..nnames).map(|i| name(rng, i % 2 == 1)).collect();
     let mut t: Vec<u8> = vec![];
-    for _ in 0..rng.range(0, 14) {
-        let n = rng.pick(&names).clone();
+    let nlines = if many { nnames * 3 } else { rng.range(0, 14) };
+    for li in 0..nlines {
+        // first a line for every file in turn, then random ones: the first file's later lines
+        // come after all the others'
+        let _ = li;
+        let n = if many && li < nnames { names[li].clone() } else if many && rng.chance(1, 3) { names[0].clone() } else { rng.pick(&names).clone() };
         let sp = |rng: &mut Rng| -> &'static str { rng.pick_str(&[" ", " ", "  ", "\t", " \t "]) };
+        // scale: a run of blanks longer than a 16-bit offset between two fields
+        let wide = rng.chance(1, 1500);
         if rng.chance(1, 5) { t.extend_from_slice(sp(rng).as_bytes()); }
         match rng.below(12) {
             0..=4 => {
@@ -100,6 +119,7 @@ pub fn messy(rng: &mut Rng) -> Vec<u8> {
                 t.extend_from_slice(a.as_bytes());
                 t.extend_from_slice(sp(rng).as_bytes());
                 t.push(b'('); t.extend_from_slice(&n); t.push(b')');
+                if wide { t.extend_from_slice(&vec![b' '; 65600]); }
                 t.extend_from_slice(sp(rng).as_bytes()); t.push(b'='); t.extend_from_slice(sp(rng).as_bytes());
                 t.extend_from_slice(hash(rng).as_bytes());
             }
@@ -113,7 +133,9 @@ pub fn messy(rng: &mut Rng) -> Vec<u8> {
             7 => t.extend_from_slice(b"# a comment (x) = y"),
             8 => {}
             9 => { t.extend_from_slice(b"SHA3 ("); t.extend_from_slice(&n); t.extend_from_slice(b") = abc"); }
-            10 => { t.extend_from_slice(b"Size ("); t.extend_from_slice(&n); t.extend_from_slice(rng.pick_str(&[") = 12x bytes", ") = 18446744073709551616 bytes", ") = -1 bytes"]).as_bytes()); }
+            10 => { t.extend_from_slice(b"Size ("); t.extend_from_slice(&n);
+                    if rng.chance(1, 2) { t.extend_from_slice(format!(") = {} bytes", limit_number(rng)).as_bytes()); }
+                    else { t.extend_from_slice(rng.pick_str(&[") = 12x bytes", ") = 18446744073709551616 bytes", ") = -1 bytes"]).as_bytes()); } }
             _ => t.extend_from_slice(rng.pick_str(&["garbage", "SHA1 name = abc", "$NetBSD: x $", "hello (world) = x", "\u{e9} (x) = y"]).as_bytes()),
         }
         if rng.chance(1, 12) { t.push(b'\r'); }     // CRLF files: CR is a blank
@@ -139,7 +161,9 @@ pub fn build(rng: &mut Rng) -> Value {
         let patch = patch_shaped(&n);
         used.push(n.clone());
         let sums: Vec<Value> = (0..rng.range(if patch { 1 } else { 0 }, 3)).map(|_| json!([rng.range(1, 6), codes(&hash(rng))])).collect();
-        let sz = if !patch && (sums.is_empty() || rng.chance(2, 3)) { json!([codes(&size(rng))]) } else { json!([]) };
+        // (an API-assembled entry holds a u64: only sizes that are one)
+        let valid_size = |rng: &mut Rng| loop { let s = size(rng); if s.parse::<u64>().is_ok() { break s; } };
+        let sz = if !patch && (sums.is_empty() || rng.chance(2, 3)) { json!([codes(&valid_size(rng))]) } else { json!([]) };
         // where the file lives on disk is not what distinfo records: a location whose last
         // component would classify differently from the recorded name
         let path: Vec<u8> = match rng.below(4) {
@@ -160,11 +184,12 @@ pub fn build(rng: &mut Rng) -> Value {
 
 pub fn verify(rng: &mut Rng) -> Value {
     let comp = |rng: &mut Rng| -> Vec<u8> { rng.pick_str(&["a", "b", "dist", "f.tgz", "x-1.0", "sub"]).as_bytes().to_vec() };
-    let depth = rng.range(1, 4);
+    // scale: recorded names nested deeper than a bounded walk would look
+    let depth = if rng.chance(1, 30) { rng.range(8, 12) } else { rng.range(1, 4) };
     let mut path: Vec<Vec<u8>> = (0..depth - 1).map(|_| comp(rng)).collect();
     let patch = rng.chance(1, 3);
     path.push(if patch { format!("patch-{}", rng.pick_str(&["aa", "src_x.c", "Makefile"])).into_bytes() } else { rng.pick_str(&["f.tgz", "pkg-1.0.tar.gz", "data.bin", "patch-local-x", "patch-a.orig"]).as_bytes().to_vec() });
-    let content = super::digests::data(rng, 800);
+    let content = if rng.chance(1, 60) { super::digests::big_data(rng) } else { super::digests::data(rng, 800) };
     let suffix = |n: usize| -> Vec<u8> { path[path.len() - n..].join(&b'/') };
     let mut lines = vec![];
     let mut names: Vec<Vec<u8>> = vec![];
